@@ -71,6 +71,8 @@ func (r DenseInt16Vector) VaddS(a ConstVector, b ConstScalar) Vector {
   if a.Dim() != n {
     panic("vector dimensions do not match")
   }
+  // b might be an element of r, which is overwritten below
+  b = b.CloneConstScalar()
   for i := 0; i < a.Dim(); i++ {
     r.AT(i).Add(a.ConstAt(i), b)
   }
@@ -81,6 +83,8 @@ func (r DenseInt16Vector) VADDS(a DenseInt16Vector, b Int16) Vector {
   if a.Dim() != n {
     panic("vector dimensions do not match")
   }
+  // b might be an element of r, which is overwritten below
+  b = b.Clone()
   for i := 0; i < a.Dim(); i++ {
     r.AT(i).ADD(a.AT(i), b)
   }
@@ -115,6 +119,8 @@ func (r DenseInt16Vector) VsubS(a ConstVector, b ConstScalar) Vector {
   if a.Dim() != n {
     panic("vector dimensions do not match")
   }
+  // b might be an element of r, which is overwritten below
+  b = b.CloneConstScalar()
   for i := 0; i < a.Dim(); i++ {
     r.AT(i).Sub(a.ConstAt(i), b)
   }
@@ -125,6 +131,8 @@ func (r DenseInt16Vector) VSUBS(a DenseInt16Vector, b Int16) Vector {
   if a.Dim() != n {
     panic("vector dimensions do not match")
   }
+  // b might be an element of r, which is overwritten below
+  b = b.Clone()
   for i := 0; i < a.Dim(); i++ {
     r.AT(i).SUB(a.AT(i), b)
   }
@@ -159,6 +167,8 @@ func (r DenseInt16Vector) VmulS(a ConstVector, s ConstScalar) Vector {
   if a.Dim() != n {
     panic("vector dimensions do not match")
   }
+  // s might be an element of r, which is overwritten below
+  s = s.CloneConstScalar()
   for i := 0; i < a.Dim(); i++ {
     r.AT(i).Mul(a.ConstAt(i), s)
   }
@@ -169,6 +179,8 @@ func (r DenseInt16Vector) VMULS(a DenseInt16Vector, s Int16) Vector {
   if a.Dim() != n {
     panic("vector dimensions do not match")
   }
+  // s might be an element of r, which is overwritten below
+  s = s.Clone()
   for i := 0; i < a.Dim(); i++ {
     r.AT(i).MUL(a.AT(i), s)
   }
@@ -203,6 +215,8 @@ func (r DenseInt16Vector) VdivS(a ConstVector, s ConstScalar) Vector {
   if a.Dim() != n {
     panic("vector dimensions do not match")
   }
+  // s might be an element of r, which is overwritten below
+  s = s.CloneConstScalar()
   for i := 0; i < a.Dim(); i++ {
     r.AT(i).Div(a.ConstAt(i), s)
   }
@@ -213,6 +227,8 @@ func (r DenseInt16Vector) VDIVS(a DenseInt16Vector, s Int16) Vector {
   if a.Dim() != n {
     panic("vector dimensions do not match")
   }
+  // s might be an element of r, which is overwritten below
+  s = s.Clone()
   for i := 0; i < a.Dim(); i++ {
     r.AT(i).DIV(a.AT(i), s)
   }
